@@ -238,6 +238,15 @@ inductive Expr
   | paren (x : Expr)
   deriving DecidableEq, Repr
 
+/-- A negative number built as ONE literal (`ast.BasicLit{Kind: INT, Value: "-12"}`, what the exporter
+produces for bounds such as `< -12`).  Both printers write its characters, which the scanner reads as
+`-` followed by the number, and since 9a3bd4a both `unaryOpMergesWithOperand` guards look at the first
+byte of a BasicLit operand exactly as at the operator of a nested UnaryExpr.  So for the token stream,
+the parenthesisation, the re-parsed tree and the unary guard it IS the tree `-` applied to the number,
+and that is how the model represents it.  (Only the optional blanks after a binary `-`/`+` differ —
+`walkBinary`/`operatorsWouldMerge` look at UnaryExpr only —, which is harmless: `--` is not a token.) -/
+def negLit (digits : List Char) : Expr := .un .sub (.atom (.int digits))
+
 def Expr.wf : Expr → Bool
   | .atom a => a.wf
   | .un o x => o.isUnary && x.wf
@@ -384,7 +393,8 @@ def diffPrec (e : Expr) (prec : Nat) : Nat :=
 /-- `reduceDepth` -/
 def reduceDepth (depth : Nat) : Nat := if depth - 1 < 1 then 1 else depth - 1
 
-/-- internal/pretty's `unaryOpMergesWithOperand` -/
+/-- `unaryOpMergesWithOperand` (internal/pretty and, since ab8529a, cue/format; extended by 9a3bd4a to
+BasicLit operands, which the model represents by `negLit`, i.e. as `.un .sub _`) -/
 def unaryOpMerges (op : OpTok) (operand : Expr) : Bool :=
   match operand with
   | .un inner _ =>
